@@ -1,5 +1,6 @@
 """C03 — analysis-driven pruning never changes what a program does.
 
+
 Proof obligations: `lean/NaijaVerif/Props/C03.lean` (theorems about the analysis model
 `Model/Analysis.lean` and the evaluator fragment `Model/AnalysisEval.lean`).
 Tie: family `plan` — the real analyses vs the model on generated and corpus programs: the
@@ -49,11 +50,35 @@ def run(ck: Check):
         total_equal += res["plans_equal"]
         total += res["requests"]
     ck.extra_cov["impl_plan_equals_model_plan"] = f"{total_equal}/{total}"
+    coverage_statistic(ck, reqs[:400] if ck.tier == "quick" else reqs[:3000])
     if ck.tier == "thorough":
         ck.leanchecker(MODULES)
     if ck.is_broken():
         search(ck)
     return ck.finish()
+
+
+def coverage_statistic(ck, reqs):
+    """Model-only: which share of the model's plan (statements + functions) is covered by the proved theorem
+    `c03_partial_checked` (unreachable statements, unused functions, quiet stores to never-read variables)
+    with all of its decidable hypotheses evaluated to true by the driver; the rest (flow-sensitive dead stores,
+    initialisers with pure user calls) rests on the tie and the differential."""
+    if not reqs or not os.path.exists(DRIVER):
+        return
+    inp = ("\n".join("cover " + r.split(" ", 1)[1] for r in reqs) + "\n").encode()
+    p = sh([DRIVER, "plan"], inp=inp, timeout=1800)
+    tot = proved = ok = n = 0
+    for line in p.stdout.decode(errors="replace").splitlines():
+        d = planlib.parse(line)
+        if "total" not in d:
+            continue
+        n += 1
+        tot += int(d["total"])
+        proved += int(d["proved"])
+        ok += int(d["ok"])
+    ck.extra_cov["plan_items_covered_by_c03_partial_checked"] = f"{proved}/{tot} over {n} programs (hypotheses hold on {ok})"
+    if n and ok < n:
+        ck.notes.append(f"c03_partial_checked: decidable hypotheses failed on {n - ok} of {n} sampled programs")
 
 
 def oracle_fails_on(ck, source):
